@@ -36,6 +36,93 @@ pub fn run(name: &str, a: &[u64]) -> Vec<u64> {
         "oct_tbl_mul" => vec![vh::OCTET_MUL[a[0] as usize][a[1] as usize] as u64],
         "oct_tbl_low" => vec![vh::OCTET_MUL_LOW_BITS[a[0] as usize][a[1] as usize] as u64],
         "oct_tbl_hi" => vec![vh::OCTET_MUL_HI_BITS[a[0] as usize][a[1] as usize] as u64],
+        // ---- C19 / C13: OTI constructor and wire formats
+        "oti_new" => {
+            let o = raptorq::ObjectTransmissionInformation::new(a[0], a[1] as u16, a[2] as u8, a[3] as u16, a[4] as u8);
+            vec![o.transfer_length(), o.symbol_size() as u64, o.source_blocks() as u64, o.sub_blocks() as u64, o.symbol_alignment() as u64]
+        }
+        // ---- C14: parameter derivation
+        "gen_params" => {
+            let o = vh::generate_encoding_parameters(a[0], a[1] as u16, a[2]);
+            vec![o.transfer_length(), o.symbol_size() as u64, o.source_blocks() as u64, o.sub_blocks() as u64, o.symbol_alignment() as u64]
+        }
+        "with_defaults" => {
+            let o = raptorq::ObjectTransmissionInformation::with_defaults(a[0], a[1] as u16);
+            vec![o.transfer_length(), o.symbol_size() as u64, o.source_blocks() as u64, o.sub_blocks() as u64, o.symbol_alignment() as u64]
+        }
+        // ---- C15: systematic constants, rand, deg, tuple, enc_indices
+        "sys_kprime" => vec![vh::extended_source_block_symbols(a[0] as u32) as u64],
+        "sys_j" => vec![vh::systematic_index(a[0] as u32) as u64],
+        "sys_h" => vec![vh::num_hdpc_symbols(a[0] as u32) as u64],
+        "sys_s" => vec![vh::num_ldpc_symbols(a[0] as u32) as u64],
+        "sys_w" => vec![vh::num_lt_symbols(a[0] as u32) as u64],
+        "sys_l" => vec![vh::num_intermediate_symbols(a[0] as u32) as u64],
+        "sys_p" => vec![vh::num_pi_symbols(a[0] as u32) as u64],
+        "sys_p1" => vec![vh::calculate_p1(a[0] as u32) as u64],
+        "rand" => vec![vh::rand(a[0] as u32, a[1] as u32, a[2] as u32) as u64],
+        "deg" => vec![vh::deg(a[0] as u32, a[1] as u32) as u64],
+        "tuple" => {
+            // X W J P1
+            let t = vh::intermediate_tuple(a[0] as u32, a[1] as u32, a[2] as u32, a[3] as u32);
+            vec![t.0 as u64, t.1 as u64, t.2 as u64, t.3 as u64, t.4 as u64, t.5 as u64]
+        }
+        "enc_indices" => {
+            // d a b d1 a1 b1 W P P1
+            let mut out = vec![];
+            vh::enc_indices(
+                (a[0] as u32, a[1] as u32, a[2] as u32, a[3] as u32, a[4] as u32, a[5] as u32),
+                a[6] as u32, a[7] as u32, a[8] as u32, |j| out.push(j as u64));
+            out
+        }
+        // ---- C13: wire formats
+        "pid_new" => {
+            let p = raptorq::PayloadId::new(a[0] as u8, a[1] as u32);
+            vec![p.source_block_number() as u64, p.encoding_symbol_id() as u64]
+        }
+        "pid_ser" => {
+            let p = raptorq::PayloadId::new(a[0] as u8, a[1] as u32);
+            p.serialize().iter().map(|&b| b as u64).collect()
+        }
+        "pid_deser" => {
+            let b = [a[0] as u8, a[1] as u8, a[2] as u8, a[3] as u8];
+            let p = raptorq::PayloadId::deserialize(&b);
+            let mut out = vec![p.source_block_number() as u64, p.encoding_symbol_id() as u64];
+            out.extend(p.serialize().iter().map(|&b| b as u64));
+            out
+        }
+        "pkt_ser" => {
+            let p = raptorq::EncodingPacket::new(
+                raptorq::PayloadId::new(a[0] as u8, a[1] as u32),
+                a[2..].iter().map(|&b| b as u8).collect(),
+            );
+            p.serialize().iter().map(|&b| b as u64).collect()
+        }
+        "pkt_deser" => {
+            let bytes: Vec<u8> = a.iter().map(|&b| b as u8).collect();
+            let p = raptorq::EncodingPacket::deserialize(&bytes);
+            let mut out = vec![
+                p.payload_id().source_block_number() as u64,
+                p.payload_id().encoding_symbol_id() as u64,
+            ];
+            out.extend(p.data().iter().map(|&b| b as u64));
+            out
+        }
+        "oti_ser" => {
+            let o = raptorq::ObjectTransmissionInformation::new(a[0], a[1] as u16, a[2] as u8, a[3] as u16, a[4] as u8);
+            o.serialize().iter().map(|&b| b as u64).collect()
+        }
+        "oti_deser" => {
+            let mut b = [0u8; 12];
+            for i in 0..12 {
+                b[i] = a[i] as u8;
+            }
+            let o = raptorq::ObjectTransmissionInformation::deserialize(&b);
+            let mut out = vec![o.transfer_length(), o.symbol_size() as u64, o.source_blocks() as u64, o.sub_blocks() as u64, o.symbol_alignment() as u64];
+            out.extend(o.serialize().iter().map(|&b| b as u64));
+            out
+        }
+        // ---- C17: plan cache under a controlled schedule
+        "cache_trace" => crate::cache::trace(a),
         _ => panic!("unknown case function {}", name),
     }
 }
